@@ -241,6 +241,10 @@ type Mw struct {
 	Prio int     `json:"prio"`
 	Pre  [][]any `json:"pre"`
 	Post [][]any `json:"post"`
+	// an uncaught throw at the end of the calls before $next / after $next
+	TPre  bool `json:"tpre"`
+	TPost bool `json:"tpost"`
+	Class bool `json:"class"` // a class-instance middleware (handle method) instead of a closure
 }
 
 func runServer(c Case) (o Obs) {
@@ -256,12 +260,22 @@ func runServer(c Case) (o Obs) {
 		opsScript(&sb, "$response", c.OnError)
 		sb.WriteString("});\n")
 	}
-	for _, m := range c.Mws {
-		sb.WriteString("$server->middleware(function ($request, $response, $next) {\n")
-		opsScript(&sb, "$response", m.Pre)
-		sb.WriteString("$next($request, $response);\n")
-		opsScript(&sb, "$response", m.Post)
-		fmt.Fprintf(&sb, "}, %d);\n", m.Prio)
+	for i, m := range c.Mws {
+		var body strings.Builder
+		opsScript(&body, "$response", m.Pre)
+		if m.TPre {
+			body.WriteString("throw new Exception(\"mwpre\");\n")
+		}
+		body.WriteString("$next($request, $response);\n")
+		opsScript(&body, "$response", m.Post)
+		if m.TPost {
+			body.WriteString("throw new Exception(\"mwpost\");\n")
+		}
+		if m.Class {
+			fmt.Fprintf(&sb, "class SMw%d { public function handle($request, $response, $next) {\n%s} }\n$server->middleware(new SMw%d(), %d);\n", i, body.String(), i, m.Prio)
+		} else {
+			fmt.Fprintf(&sb, "$server->middleware(function ($request, $response, $next) {\n%s}, %d);\n", body.String(), m.Prio)
+		}
 	}
 	sb.WriteString("$server->get('/x', function ($req, $res) {\n")
 	opsScript(&sb, "$res", c.Ops)
